@@ -1,4 +1,5 @@
 import FluteModel.Lemmas.SessionFdt
+import FluteModel.Lemmas.SessionEmit
 /-
   From packet streams to the events one object sees, and the stream-level core of C02 / C16.
 -/
@@ -264,11 +265,6 @@ theorem closeLast_of_CL : ∀ (T : List Sym), CL T → CloseLastSyms T := by
     | cons y a' =>
       simp only [List.cons_append, List.cons.injEq] at hab
       exact ih h.2 a' q b hab.2 hq r hr
-
-/-- the sender's side: the close-object flag only on the very last packet of the object -/
-def OnlyLast : List Sym → Prop
-  | [] => True
-  | q :: t => (q.close = true → t = []) ∧ OnlyLast t
 
 theorem CL_replicate (q : Sym) (E : List Sym) (hE : q.close = true → E = []) (hcl : CL E) :
     ∀ m, CL (List.replicate m q ++ E) := by
